@@ -17,6 +17,7 @@ import Cacache.Lemmas.LinearizeLs
 import Cacache.Lemmas.LinearizeRead
 import Cacache.Lemmas.TwoWriters
 import Cacache.Lemmas.Gaps
+import Cacache.Lemmas.LinearizeRepair
 
 namespace Cacache.C07x
 open Prog Refine Linearize ListRefine LinearizeLs
@@ -547,5 +548,68 @@ theorem writeHash_writeHash_serializable (hl : HexLen cfg) (fl0 fl1 : Flavour) (
     Serializable cfg env cache (writeHash cfg fl0 cache a0 d0) (writeHash cfg fl1 cache a1 d1)
       fs sched c0 c1 :=
   Gaps.writeHash_writeHash_serializable cfg env cache hl fl0 fl1 a0 a1 d0 d1 fs hH sched c0 c1 f0 f1
+
+
+/-! ### From `Lemmas/LinearizeRepair.lean`: the two-step read next to a whole writer, NO hypothesis on the address -/
+
+open LinearizeRead LinearizeRepair in
+/-- **`read key' ∥ write key data` with no hypothesis on the address written** - another address, the
+same address already holding the bytes, or the same address holding anything else (nothing, corrupt
+bytes, a directory: the writer's `rename` REPAIRS the file the reader's entry names, and a reader that
+looked the key up before may read the repaired bytes).  Under every schedule the finished reader
+answers as `read` alone before or alone after the WHOLE write; the finished writer answers, and leaves
+the filesystem, as alone.  Hypotheses: the reader's bucket is a regular file (or absent) whose bytes end
+in a whole line, the content node of the entry it holds is not a symbolic link, the writer's key is
+UTF-8 and the data length a `u64` (what Rust's types give). -/
+theorem read_write_linearizable_total {γ : Type} (f : Res Integrity → γ) (g : Res Bytes → γ)
+    (fl : Flavour) (algo : Algo) (key key' data : Bytes) (b : Bytes) (fs : FS)
+    (hb : BucketIs fs (bucketPath cfg cache key') b)
+    (hpl : PlainFor cache fs (.ok ((codec cfg).findIn key' ((codec cfg).entries b))))
+    (hs : (codec cfg).Settled b) (hkey : Json.utf8Valid key = true)
+    (hlen : data.length ≤ Rec.u64Max) (sched : List Nat) :
+    (∀ c, FinishedWith env [(write cfg fl cache algo key data).mapRes f,
+        (read cfg cache key').mapRes g] fs sched 1 c →
+      c = g (run env (read cfg cache key') fs).1 ∨
+      c = g (run env (read cfg cache key') (run env (write cfg fl cache algo key data) fs).2.1).1) ∧
+    (∀ c, FinishedWith env [(write cfg fl cache algo key data).mapRes f,
+        (read cfg cache key').mapRes g] fs sched 0 c →
+      c = f (run env (write cfg fl cache algo key data) fs).1 ∧
+      (interleave env [(write cfg fl cache algo key data).mapRes f,
+        (read cfg cache key').mapRes g] fs sched).2 =
+        (run env (write cfg fl cache algo key data) fs).2.1) :=
+  LinearizeRepair.read_write_linearizable_total cfg env cache f g fl algo key key' data b fs hb hpl hs hkey hlen sched
+
+open LinearizeRead LinearizeRepair in
+/-- The same for a streamed writer with any options and chunking.  The two extra hypotheses are asked
+ONLY when the reader's entry is at the very address written (`SameAddress`): `hwf` - the appended
+record is well-formed and the old bucket settled (else the lookup after the write need not lead to this
+address); `hdecl` (same key, declared integrity only) - the declaration has the content path of the
+computed integrity and survives its text form: a declaration `[a-X, a-<computed>]` is accepted and
+recorded with the content path of `X` (that is known finding F24). -/
+theorem read_writeStream_linearizable_repair {γ : Type} (f : Res Integrity → γ) (g : Res Bytes → γ)
+    (fl : Flavour) (key key' : Bytes) (o : WriteOpts) (chunks : List Bytes) (b : Bytes) (fs : FS)
+    (hb : BucketIs fs (bucketPath cfg cache key') b)
+    (hpl : PlainFor cache fs (.ok ((codec cfg).findIn key' ((codec cfg).entries b))))
+    (hwf : SameAddress cfg cache key' b (Sri.compute cfg.H (o.algo.getD .sha256) chunks.flatten) →
+      bucketPath cfg cache key' = bucketPath cfg cache key →
+      OptsWF key (recordedOpts cfg o chunks.flatten) ∧ (codec cfg).Settled b)
+    (hdecl : SameAddress cfg cache key' b (Sri.compute cfg.H (o.algo.getD .sha256) chunks.flatten) →
+      key' = key → ∀ s, o.sri = some s →
+      contentPath cache s =
+        contentPath cache (Sri.compute cfg.H (o.algo.getD .sha256) chunks.flatten) ∧
+      Sri.parse (Sri.print s) = some s)
+    (sched : List Nat) :
+    (∀ c, FinishedWith env [(writeStream cfg cache fl (some key) o chunks).mapRes f,
+        (read cfg cache key').mapRes g] fs sched 1 c →
+      c = g (run env (read cfg cache key') fs).1 ∨
+      c = g (run env (read cfg cache key')
+        (run env (writeStream cfg cache fl (some key) o chunks) fs).2.1).1) ∧
+    (∀ c, FinishedWith env [(writeStream cfg cache fl (some key) o chunks).mapRes f,
+        (read cfg cache key').mapRes g] fs sched 0 c →
+      c = f (run env (writeStream cfg cache fl (some key) o chunks) fs).1 ∧
+      (interleave env [(writeStream cfg cache fl (some key) o chunks).mapRes f,
+        (read cfg cache key').mapRes g] fs sched).2 =
+        (run env (writeStream cfg cache fl (some key) o chunks) fs).2.1) :=
+  LinearizeRepair.read_writeStream_linearizable_repair cfg env cache f g fl key key' o chunks b fs hb hpl hwf hdecl sched
 
 end Cacache.C07x
